@@ -59,6 +59,17 @@ pub fn c08(quick: bool) -> PropRun {
         if quick { env.fates = DF_LOSS; }
         scs.push(sc("C08.two-clients", &cfg, script, env, d, EO_C08));
     }
+    // a server filled exactly to its limits (handshake error events on): duplicated / stale handshake frames of connected addresses
+    for (ma, mt, nc) in [(1usize, 1usize, 1usize), (1, 2, 2), (2, 2, 2)] {
+        let mut cfg = EwCfg::new(nc); cfg.max_active = ma; cfg.max_total = mt;
+        for c in cfg.clients.iter_mut() { c.active_timeout_ms = 3000; } cfg.server.active_timeout_ms = 3000;
+        let mut script = echo_script(0);
+        if nc > 1 { script.extend(vec![at(1, Act::Connect(1)), after_c(1, 1, Act::CSend(1, 0, SendMode::Reliable, 100))]); }
+        script.push(after_c(0, 6, Act::CDisconnect(0)));
+        let mut env = EwEnv::basic(if quick { 6 } else { 9 }, 140);
+        env.fates = DF_ALL; env.deltas = &[100, 2000]; env.fair_delta = 500; env.long_hold = 4; env.app_menu = vec![Act::SDisconnectNow(0), Act::CDisconnectNow(0), Act::Connect(0)];
+        scs.push(sc("C08.full-server", &cfg, script, env, d, EO_C08));
+    }
     PropRun { level: "model_checking", scenarios: scs, units: vec![], replay_case: None, summary: ew_summary(
         "every explored execution's event streams (client: per Client object; server: per address, with Server::drop as a silent end) are run through the reference automaton Connect? Receive* (Disconnect|Error)?",
         json!({"d": d, "application_menu": "send / disconnect / disconnect_now / drop / reconnect from the same address / forget, on either side, at every round of the window", "fates": "deliver/drop/dup/hold2/stale copy 10 rounds later on every datagram", "deltas_ms": [100, 0, 2000, 20000], "active_timeouts_ms": timeouts})) }
@@ -208,7 +219,7 @@ pub fn c17(quick: bool) -> PropRun {
             let mut script: Vec<EwOp> = (0..nc).map(|i| at(i / 2, Act::Connect(i))).collect();
             for i in 0..nc { script.push(after_c(i, 2, Act::CSend(i, 0, SendMode::Reliable, 50))); }
             let mut env = EwEnv::basic(if nc <= 3 { 4 } else { 4 }, 60);
-            env.fates = &[DFate::Deliver, DFate::Hold2, DFate::Drop]; env.fate_types = &[0, 1, 2]; env.deltas = &[100]; env.fair_delta = 500;
+            env.fates = &[DFate::Deliver, DFate::Hold2, DFate::Drop, DFate::Dup, DFate::HoldLong]; env.fate_types = &[0, 1, 2]; env.deltas = &[100]; env.fair_delta = 500; env.long_hold = 6;
             env.fates_free = nc <= 2 || (!quick && nc <= 3);
             let d = if env.fates_free { 0 } else if quick { 2 } else { 3 };
             scs.push(sc("C17.overlap", &cfg, script.clone(), env, d, EO_C17 | EO_C08));
@@ -376,7 +387,7 @@ pub fn c09(quick: bool) -> PropRun {
     let d = if quick { 2 } else { 3 };
     use SendMode::*;
     let loads: Vec<(&str, Vec<(u8, SendMode, usize)>)> = vec![
-        ("none", vec![]), ("one", vec![(0, Reliable, 100)]), ("three-mixed", vec![(0, Reliable, 3000), (1, Unreliable, 50), (0, Reliable, 20)]),
+        ("none", vec![]), ("one", vec![(0, Reliable, 100)]), ("empty-marker", vec![(0, Reliable, 0)]), ("data-then-empty-marker", vec![(0, Reliable, 700), (1, Unreliable, 0), (0, Reliable, 0)]), ("three-mixed", vec![(0, Reliable, 3000), (1, Unreliable, 50), (0, Reliable, 20)]),
         ("eight", (0..8).map(|i| ((i % 2) as u8, if i % 3 == 2 { Persistent } else { Reliable }, if i == 4 { 5000 } else { 200 + i })).collect()),
     ];
     for (lname, load) in loads {
